@@ -156,7 +156,8 @@ def runWrite (c : Case) : Except Fault Written :=
 /-- the three files after `Close()` according to the byte-level writer model: the same calls, in the same order,
 on the encoder (`Encode` / `EncodeFields` per the writer schedule), each through `Writer.Write` and
 `Writer.WriteAttribute` with the encoder's cursor -/
-def runBytes (c : Case) : Option Layout.Files :=
+def runBytes (c : Case) (withAttrs : Bool) : Option Layout.Files :=
+  let valsOf := fun (r : BGeom × List Val) => if withAttrs then r.2 else []
   match c.w with
   | .s sfs sched =>
     match newEncoder sfs with
@@ -164,11 +165,11 @@ def runBytes (c : Case) : Option Layout.Files :=
     | .ok e =>
       let step := fun (acc : Layout.BW × Nat) (r : BGeom × List Val) =>
         let via := if sched.isEmpty then true else (sched[acc.2 % sched.length]?).getD true
-        ((Layout.encode e.shpType e.fields acc.1 via (Layout.fieldShapeB e.geomKind (fieldGeom e.geomKind r.1)) r.2).1, acc.2 + 1)
+        ((Layout.encode e.shpType e.fields acc.1 via (Layout.fieldShapeB e.geomKind (fieldGeom e.geomKind r.1)) (valsOf r)).1, acc.2 + 1)
       some (Layout.close e.shpType e.fields (c.recs.foldl step (Layout.create e.fields, 0)).1)
   | .f t ffs =>
     let fields := ffs.map fun f => (⟨name11 f.name, f.typ, f.size, f.prec⟩ : Field)
-    let step := fun (w : Layout.BW) (r : BGeom × List Val) => (Layout.encode t fields w false (Layout.geom2ShpB r.1) r.2).1
+    let step := fun (w : Layout.BW) (r : BGeom × List Val) => (Layout.encode t fields w false (Layout.geom2ShpB r.1) (valsOf r)).1
     some (Layout.close t fields (c.recs.foldl step (Layout.create fields)))
 
 def firstByteDiff : Bytes → Bytes → Nat → String
@@ -193,7 +194,19 @@ def rowsEq : List (Shape UInt64 × List Bytes) → List (Shape UInt64 × List By
 /-- `none` = the real files are, byte for byte, what the layout model writes, AND read through the layout
 model's reader they are the row store (`FileM`) the abstract writer model computed; else what differs -/
 def bytesVerdict (c : Case) (abstractFile : Option (FileM UInt64)) (filesTok : Tok) : Option String :=
-  match filesTok, runBytes c with
+  -- The positioned writes on a `List` cost (number of writes) x (file size). Files of more than 64 records get
+  -- their `.shp`/`.shx` from the operational writer as always, but their `.dbf` in CLOSED FORM from the abstract
+  -- model's rows (`Layout.dbfOf`, the form `C16_container` is about; the record count in the header is the number
+  -- of `.shp` records).
+  let small := c.recs.length ≤ 64
+  let model : Option Layout.Files := match runBytes c small with
+    | none => none
+    | some m =>
+      if small then some m
+      else match abstractFile with
+        | some f => some { m with dbf := Layout.dbfOf f.rows.length f.fields (f.rows.map (·.2)) }
+        | none => some m
+  match filesTok, model with
   | [], _ => some "bytes-missing-in-answer"
   | _, none => some "bytes-present-but-model-has-no-encoder"
   | [_, a, b, d], some m =>
